@@ -26,6 +26,17 @@ Example C09_v_s_example :
       (Leaf 100%positive (LErrno 2%Z)))))) = true.
 Proof. vm_compute. reflexivity. Qed.
 
+(* RECORDED FINDING (known_findings.txt, operror-arrow-spacing): the statement is false of the
+   faithful model, and of the code, for a *net.OpError with both a source and an address: the
+   engine's special-case printer writes "src -> addr", Error() "src->addr".  [plain_tree] excludes
+   exactly that shape (and an OpError whose head is empty); with at most one of the two it holds. *)
+Theorem C09_v_s_operror_refuted :
+  error_text operror_both = lit "dial tcp 10.0.0.1:1->10.0.0.2:2: refused" /\
+  fmt_plain_short operror_both = lit "dial tcp 10.0.0.1:1 -> 10.0.0.2:2: refused" /\
+  fmt_plain_short operror_both <> error_text operror_both.
+Proof. split; [|split]; [vm_compute; reflexivity | vm_compute; reflexivity | exact operror_arrow_refuted]. Qed.
+Print Assumptions C09_v_s_operror_refuted.
+
 Theorem C09_one_entry_per_layer : forall e o d w k st,
   snd (ns_fmt (sem e) o d w k st) = List.length (visit_all e) /\
   List.length (fs_entries (fst (ns_fmt (sem e) o d w k st))) =
